@@ -14,7 +14,7 @@ def run(prog, rep, tier):
                   "conditions), the action of that rule is interpreted from the source of yylex: N4 ~200 literals covering every documented escape in "
                   "three contexts, raw literals, continuation and %% denote the documented bytes; N5 ~1000 layout variants of three programs covering "
                   "every token kind give the same token sequence.")
-    rep.not_decided = ("simplifier transparency beyond U1, layout inside programs other than the sampled token sequences, `if` vs its expansion, "
+    rep.not_decided = ("simplifier transparency outside the query family of E10, layout inside programs other than the sampled token sequences, `if` vs its expansion, "
                        "`?(E)` vs `([E] != [])`: these equate results of two programs for all inputs (other families).")
     apply(rep, "N1", "format directives are their documented expansions", r_lex.n1(prog), 5)
     apply(rep, "N2", "infix operators are the documented ?(let..) tree", r_lex.n2(prog), 1)
@@ -22,6 +22,8 @@ def run(prog, rep, tier):
     apply(rep, "N4", "string literals denote the documented bytes: named, octal, hex, end-of-line escapes, raw literals, continuation, %% (scanner simulated: rule selection from the patterns, actions interpreted)", r_lex.n4(prog), 8)
     apply(rep, "N5", "blanks, newlines and whitespace-delimited comments of all three styles between any two tokens do not change the token sequence (scanner simulated)", r_lex.n5(prog), 4)
     apply(rep, "N6", "every %( ... %) splice of a literal is delimited on its own, whatever it or the previous splice contains (scanner simulated)", r_lex.n6(prog), 2)
+    import r_stream as _rs10
+    apply(rep, "E10", "the compile-time simplification changes no result: tree::simplify interpreted from source, the simplified tree run by the interpreted engine, against the reference semantics of the original query", _rs10.e10(prog, tier), 2)
     import r_tables
     apply(rep, "U1", "the simplifier's erase-remove drops the whole removed tail", r_tables.u1(prog), 1)
     apply(rep, "Y2", "every %( ... %) splice of a literal is scanned from the same initial state as the directive forms", r_lex.y2(prog), 2)
